@@ -4,6 +4,7 @@ handlers that fail, read errors.  Oracle (implementation only): no panic/abort, 
 complete well-framed response, error status for requests that cannot be parsed or served."""
 from vlib import common as C, serve as S, reqgen as G, strict_http as H, servecheck as K
 
+DRIVERS = ['Serve']   # model driver files this check runs: scopes translator failures to the tables they (and the proofs) import
 TRUSTED = ['scripted transport of the harness stands for the socket; Server::process is driven in-process on a named 2 MiB-stack thread as workers are']
 ASSUMPTIONS = ['real stack exhaustion and allocator failure are outside the model; the harness observes them as process aborts']
 WITH_MODEL = True
